@@ -134,8 +134,10 @@ package casketfile
 //@   pure
 //@   ensures s == "" ==> result == ""
 //@ func (*parser).validDirective
+//@   requires p != nil
 //@   pure reads parser
 //@ func (*parser).doSingleImport
+//@   modifies E:github.com/tmpim/casket/casketfile.Token
 //@   requires p != nil
 
 //@ // C10: a defined snippet (also one with an empty body: snippetTokens returns a non-nil empty slice) takes precedence over
@@ -147,7 +149,7 @@ package casketfile
 //@ define importArg() string = replaceEnvVars(old(p.tokens[p.cursor+1].Text))
 //@ func (*parser).doImport
 //@   requires p != nil && 0 <= p.cursor && p.cursor < len(p.tokens)
-//@   modifies Dispenser.cursor, Dispenser.tokens, ghost:fileLookups
+//@   modifies Dispenser.cursor, Dispenser.tokens, ghost:fileLookups, E:github.com/tmpim/casket/casketfile.Token
 //@   ensures [defined_snippet_wins_over_files] (old(p.cursor) < old(len(p.tokens)) - 1 && old(p.definedSnippets != nil) && old(p.definedSnippets[importArg()] != nil)) ==> fileLookups == old(fileLookups)
 //@   ensures [cursor_back] result == nil ==> (p.cursor == old(p.cursor) && p.cursor >= 0)
 //@   ensures [cursor_nonneg] p.cursor >= 0
@@ -179,7 +181,7 @@ package casketfile
 //@   ensures [cursor_ok] p.cursor >= -1
 //@ func (*parser).addresses
 //@   requires p != nil && 0 <= p.cursor && p.cursor < len(p.tokens)
-//@   modifies Dispenser.cursor, Dispenser.tokens, ServerBlock.Keys, parser.eof, ghost:fileLookups
+//@   modifies Dispenser.cursor, Dispenser.tokens, ServerBlock.Keys, parser.eof, ghost:fileLookups, E:github.com/tmpim/casket/casketfile.Token
 //@   ensures [cursor_ok] p.cursor >= 0
 //@   loop 1 invariant p.cursor >= 0
 
